@@ -33,4 +33,14 @@ def main():
 
 
 if __name__ == "__main__":
-    sys.exit(main())
+    try:
+        rc = main()
+    except SystemExit:
+        raise
+    except BaseException as e:      # the machinery itself failed: never a verdict about the property
+        import traceback
+        traceback.print_exc()
+        print("INCONCLUSIVE property=%s reason=harness failure %s: %s" % (
+            sys.argv[1] if len(sys.argv) > 1 else "?", type(e).__name__, str(e)[:200]))
+        rc = 2
+    sys.exit(rc)
